@@ -159,6 +159,26 @@ func roundTripCheck(build func() Inst, pend func(key, via string), st *Stats) *V
 	if x.Key() != k0 {
 		return viol(tag("C11", "C18"), "invariant", "ToJSON/json.Marshal changed the container %s", x.ContainerName())
 	}
+	// the returned bytes are the caller's: serialising ANOTHER container of the same type (differently
+	// filled) must not change them, and writing to them must not change what ToJSON returns next
+	keep := append([]byte{}, out...)
+	other := x.Fresh()
+	if ops := other.Ops(); len(ops) > 0 {
+		safeStep(other, ops[0], nil)
+		if len(ops) > 1 {
+			safeStep(other, ops[len(ops)/2], nil)
+		}
+	}
+	if _, err := jio(other).ToJSON(); err == nil && !bytes.Equal(out, keep) {
+		return viol(tag("C11", "C16"), "invariant", "the bytes returned by ToJSON of one %s (%s) changed to %s when another %s was serialised (shared output buffer)", x.ContainerName(), keep, out, x.ContainerName())
+	}
+	for i := range out {
+		out[i] = 'X'
+	}
+	if again, err := jio(x).ToJSON(); err != nil || !sameJSON(again, keep, x.Unordered()) {
+		return viol(tag("C11", "C16"), "invariant", "after the caller overwrote the bytes returned by ToJSON, the next ToJSON of %s returns %s (was %s)", x.ContainerName(), again, keep)
+	}
+	out = keep
 	st.Nested["roundtrip_states"]++
 	for _, via := range []string{"FromJSON", "json.Unmarshal"} {
 		via := via
